@@ -99,6 +99,8 @@ pub enum Op {
     Set(u8, u32),
     Read,
     Select([u8; 5]),
+    /// state-dependent write: set the slot to its current content with one bit flipped
+    Flip(u8, u8),
 }
 
 fn words(ws: &[u32]) -> String {
@@ -150,6 +152,14 @@ pub fn history_clause(n: usize, ops: &[Op]) -> Result<(), String> {
                 model[s] = *w;
             }
             Op::Read => {}
+            Op::Flip(slot, bit) => {
+                let s = *slot as usize % n;
+                let w = model[s] ^ (1u32 << (*bit % 32));
+                let mut c2 = c;
+                guard(|| c2.set(s, w)).map_err(|m| format!("{}: {}::set_{} panicked: {}", at, TN[n], SLOT[s], m))?;
+                c = c2;
+                model[s] = w;
+            }
             Op::Select(p) => {
                 if n >= 6 {
                     let p2 = p.map(|x| x % n as u8);
@@ -173,6 +183,7 @@ fn op_text(op: &Op) -> String {
         Op::Set(s, w) => format!("set slot index {} := {}", s, hex(*w)),
         Op::Read => "read".into(),
         Op::Select(p) => format!("select {:?}", p),
+        Op::Flip(s, b) => format!("set slot index {} := its current word with bit {} flipped", s, b % 32),
     }
 }
 
@@ -185,6 +196,7 @@ fn ops_json(ops: &[Op]) -> Value {
             Op::Set(s, w) => json!({"set": s, "word": hex(*w)}),
             Op::Read => json!("read"),
             Op::Select(p) => json!({"select": p}),
+            Op::Flip(s, b) => json!({"flip": s, "bit": b}),
         })
         .collect::<Vec<_>>())
 }
@@ -200,6 +212,8 @@ fn ops_from_json(v: &Value) -> Result<Vec<Op>, String> {
             ops.push(Op::Parts(engine::parse_words(ws)?, o["variant"].as_u64().unwrap_or(0) as u8));
         } else if let Some(s) = o.get("set") {
             ops.push(Op::Set(s.as_u64().unwrap_or(0) as u8, engine::parse_word(&o["word"])?));
+        } else if let Some(s) = o.get("flip") {
+            ops.push(Op::Flip(s.as_u64().unwrap_or(0) as u8, o["bit"].as_u64().unwrap_or(0) as u8));
         } else if let Some(p) = o.get("select") {
             let mut q = [0u8; 5];
             for (i, x) in p.as_array().ok_or("select")?.iter().take(5).enumerate() {
@@ -220,6 +234,7 @@ fn word_strategy() -> impl Strategy<Value = u32> {
         1 => Just(0u32),
         1 => Just(u32::MAX),
         1 => (0usize..52, 0u32..32).prop_map(|(i, b)| card::DECK[i] ^ (1 << b)),
+        2 => (0usize..52, 1u32..8).prop_map(|(i, m)| card::DECK[i] | (m << 29)),
     ]
 }
 
@@ -228,6 +243,7 @@ fn op_strategy() -> impl Strategy<Value = Op> {
         2 => proptest::collection::vec(word_strategy(), 7).prop_map(Op::FromArray),
         2 => (proptest::collection::vec(word_strategy(), 7), 0u8..2).prop_map(|(w, v)| Op::Parts(w, v)),
         10 => (0u8..7, word_strategy()).prop_map(|(s, w)| Op::Set(s, w)),
+        4 => (0u8..7, prop_oneof![3 => 29u8..32, 2 => 0u8..32]).prop_map(|(s, b)| Op::Flip(s, b)),
         1 => Just(Op::Read),
         2 => proptest::array::uniform5(0u8..7).prop_map(Op::Select),
     ]
@@ -252,6 +268,19 @@ pub fn run(run: &mut Run) -> PResult {
                 }
             }
             for k in 0..size {
+                // overwrite, then every single-bit variant of the stored word, then blank it
+                let mut ops = vec![Op::FromArray(base.clone()), Op::Set(k as u8, card::DECK[k])];
+                for b in 0..32u8 {
+                    ops.push(Op::Flip(k as u8, b));
+                }
+                ops.push(Op::Set(k as u8, 0));
+                ops.push(Op::Set(k as u8, u32::MAX));
+                ops.push(Op::Set(k as u8, 0));
+                n += 1;
+                if let Err(m) = history_clause(size, &ops) {
+                    run.generator("every constructor and setter on distinct sentinel words", "exhaustive", None, n, n, "");
+                    return run.violation("C19.history", &format!("size={} rewrite slot {}", size, k), json!({"size": size, "ops": ops_json(&ops)}), &m);
+                }
                 for start in 0..2 {
                     let ops = vec![if start == 0 { Op::FromArray(base.clone()) } else { Op::Parts(base.clone(), 0) }, Op::Set(k as u8, 0x5EED_0000 + k as u32), Op::Read];
                     n += 1;
@@ -262,13 +291,20 @@ pub fn run(run: &mut Run) -> PResult {
                 }
             }
         }
-        run.generator("every constructor and setter on distinct sentinel words", "exhaustive", Some(n), n, n, "27 setters x 2 starting constructors + 3 constructions per size");
+        run.generator("every constructor and setter on distinct sentinel words", "exhaustive", Some(n), n, n, "27 setters x 2 starting constructors, 27 rewrite sequences (a card, then each of its 32 one-bit variants, blank, all-ones, blank) + 3 constructions per size");
     }
     // E: every in-range selection tuple
     {
         let mut n = 0u64;
-        for size in [6usize, 7] {
-            let base: Vec<u32> = (0..size as u32).map(|i| 0xB000_0007 + i * 0x0011_0011).collect();
+        for (size, kind) in [(6usize, 0), (7, 0), (6, 1), (7, 1), (6, 2), (7, 2)] {
+            // three kinds of stored words: arbitrary sentinels, real cards, flagged cards
+            let base: Vec<u32> = (0..size as u32)
+                .map(|i| match kind {
+                    0 => 0xB000_0007 + i * 0x0011_0011,
+                    1 => card::DECK[(i * 7) as usize],
+                    _ => card::DECK[(i * 5 + 1) as usize] | ((1 + i % 7) << 29),
+                })
+                .collect();
             let total = size.pow(5);
             for idx in 0..total {
                 let mut x = idx;
@@ -280,17 +316,17 @@ pub fn run(run: &mut Run) -> PResult {
                 n += 1;
                 let ops = [Op::FromArray(base.clone()), Op::Select(p)];
                 if let Err(m) = history_clause(size, &ops) {
-                    run.generator("every in-range index tuple for five-slot selection", "exhaustive", Some(7776 + 16807), n, n, "");
+                    run.generator("every in-range index tuple for five-slot selection", "exhaustive", Some(3 * (7776 + 16807)), n, n, "");
                     return run.violation("C19.history", &format!("size={} select {:?}", size, p), json!({"size": size, "ops": ops_json(&ops)}), &m);
                 }
             }
         }
-        run.generator("every in-range index tuple for five-slot selection", "exhaustive", Some(7776 + 16807), n, n, "6^5 on Six and 7^5 on Seven, distinct sentinel words");
+        run.generator("every in-range index tuple for five-slot selection", "exhaustive", Some(3 * (7776 + 16807)), n, n, "6^5 on Six and 7^5 on Seven, over three kinds of stored words: distinct sentinels, real cards, flagged cards");
     }
     // R: histories
     {
         let st = engine::RStats::new();
-        let cases = if thorough { 8_000_000 } else { 1_000_000 };
+        let cases = (if thorough { 8_000_000 } else { 1_000_000 }) / if run.is_twin() { 4 } else { 1 };
         let make = || (2usize..=7, proptest::collection::vec(op_strategy(), 1..40));
         let res = pt::run_sharded(run.seed, 0xC19, cases, &make, &|(n, ops): (usize, Vec<Op>)| {
             let mut h = mix(n as u64);
@@ -304,6 +340,10 @@ pub fn run(run: &mut Run) -> PResult {
                         ((*s as u64) << 32 | *w as u64) ^ 3
                     }
                     Op::Read => 4,
+                    Op::Flip(s, b) => {
+                        has_set = true;
+                        ((*s as u64) << 8 | *b as u64) ^ 7
+                    }
                     Op::Select(p) => p.iter().fold(5u64, |m, x| m * 8 + *x as u64),
                 });
             }
@@ -384,9 +424,13 @@ pub fn check_bytes(data: &[u8]) -> Result<(), String> {
         ops.push(match tag % 8 {
             0 => Op::FromArray((0..n).map(|_| word(&mut i)).collect()),
             1 => Op::Parts((0..n).map(|_| word(&mut i)).collect(), tag >> 3),
-            2..=5 => {
+            2..=4 => {
                 let s = byte(&mut i);
                 Op::Set(s, word(&mut i))
+            }
+            5 => {
+                let s = byte(&mut i);
+                Op::Flip(s, byte(&mut i))
             }
             6 => Op::Read,
             _ => {
